@@ -94,6 +94,16 @@ pub fn run(ctx: &Ctx, rep: &mut Report) {
             .flat_map(|d| world.lexicon_of(d).entries.iter().filter(|e| e.split_a.len() >= 2 || e.split_b.len() >= 2).map(|e| e.key.clone()).collect::<Vec<_>>())
             .collect();
         let mut tc = Tok::new(&world.dict, Mode::C);
+        // in every third world the mode-C tokenizer has been through mode changes first (the way a per-call mode override of
+        // the bindings is applied and undone): what it loads afterwards must still carry the units of both other modes
+        if wi % 3 == 0 {
+            match wi % 9 {
+                0 => { tc.tok.set_mode(Mode::A); tc.tok.set_mode(Mode::C); }
+                3 => { tc.tok.set_mode(Mode::C); }
+                _ => { tc.tok.set_mode(Mode::B); let _ = guard(|| tc.run("あい東京都")); tc.tok.set_mode(Mode::C); }
+            }
+            rep.count("worlds_whose_mode_C_tokenizer_went_through_set_mode", 1);
+        }
         // half of the worlds reach modes A/B the way the Python binding does: a tokenizer created in mode C,
         // a field request that does not mention the split fields, then set_mode
         let via_subset = wi % 2 == 1 && wi % 8 != 3;
